@@ -233,8 +233,9 @@ Definition visible_ids (c : cfg) (t : node) : list nat :=
 
 (* the entities that get a page of their own: project.modules/submodules/programs/blockdata/procedures
    (top-level ones, then functions, subroutines, interfaces of every unit), absinterfaces, types,
-   submodprocedures — gathered after prune; project.namelists — gathered at parse time from the units'
-   routines (and from programs and top-level procedures themselves), kept when prune made them visible *)
+   submodprocedures — gathered after prune; project.namelists — gathered at parse time from modules,
+   submodules, programs, top-level procedures and the routines directly inside them, kept when prune made
+   them visible *)
 Definition page_lists : list lname :=
   [LFunctions; LSubroutines; LInterfaces; LAbsInterfaces; LTypes; LModFunctions; LModSubroutines; LModProcedures].
 
@@ -253,7 +254,7 @@ Definition unit_pages (c : cfg) (pd : list word) (u : node) : list nat :=
       let d := disp_of false pd (a_display a) in
       let hide := match k with NProc => negb (internals c a) | _ => false end in
       a_id a
-      :: (match k with NProgram | NProc => namelist_pages c d u | _ => [] end)
+      :: (match k with NModule | NSubmodule | NProgram | NProc => namelist_pages c d u | _ => [] end)
       ++ flat_map (fun lc =>
            let l := fst lc in let ch := snd lc in
            match k with
@@ -335,8 +336,8 @@ Fixpoint sel (c : cfg) (inh : dset) (n : node) : list nat :=
 Definition selected (c : cfg) (t : node) : list nat := sel c (dset_of (c_display c)) t.
 
 (* kinds that have a page of their own, by position: a unit; a procedure / interface / type directly inside
-   a module, submodule, program or block data unit; a namelist of a program, of a top-level procedure or of
-   a procedure directly inside a module, submodule or program *)
+   a module, submodule, program or block data unit; a namelist of a module, submodule, program or top-level
+   procedure, or of a procedure directly inside a module, submodule or program *)
 Definition spec_namelists (c : cfg) (k : nkind) (a : attrs) (d : dset) (n : node) : list nat :=
   flat_map (fun lc => if lname_eqb (fst lc) LNamelists && child_selected c k a d LNamelists (node_attrs (snd lc))
                       then [a_id (node_attrs (snd lc))] else [])
@@ -347,7 +348,7 @@ Definition spec_pages_unit (c : cfg) (inh : dset) (u : node) : list nat :=
   | Node k a cs =>
       let d := spec_display false inh (a_display a) in
       a_id a
-      :: (match k with NProgram | NProc => spec_namelists c k a d u | _ => [] end)
+      :: (match k with NModule | NSubmodule | NProgram | NProc => spec_namelists c k a d u | _ => [] end)
       ++ flat_map (fun lc =>
            let ch := snd lc in
            match k with
